@@ -485,7 +485,19 @@ def stack_wrapped_fields(h: Harness, rng):
     C = gram.ClassSpec
     spec = gram.Spec([C("A0", True, None), C("Leaf", False, 0, [("k", "int")]), C("Pair", False, 0, [("p", ("tuple", "int", "bool"))]),
                       C("Both", False, 0, [("t", ("tuple", ("cls", 0), "int")), ("xs", ("list", "int"))]),
-                      C("Either", False, 0, [("u", ("union", ("cls", 1), "bool"))])], 0, [1, 2, 3, 4])
+                      C("Either", False, 0, [("u", ("union", ("cls", 1), "bool"))]),
+                      ], 0, [1, 2, 3, 4])
+    # tuples that REPEAT a component type with another type in between (every position holds its own declared type); the only
+    # productions of this grammar, so that every mapped program has one
+    spec2 = gram.Spec([C("A0", True, None), C("T3", False, 0, [("t", ("tuple", "int", "bool", "int"))]),
+                       C("T4", False, 0, [("s", ("tuple", "bool", "int", "bool", "int"))]), C("T5", False, 0, [("u", ("tuple", "int", "int", "bool", "int"))])], 0, [1, 2, 3])
+    for spec_ in (spec, spec2):
+        stack_programs(h, spec_, rng)
+
+
+def stack_programs(h: Harness, spec, rng):
+    from linear import Stack, safe
+    from geneticengine.random.sources import NativeRandomSource
     b = gram.build(spec)
     g = b.extract()
     line_spec = gram.spec_sx(spec)
